@@ -93,9 +93,11 @@ impl SimpleDawg {
             }
         }
 
-        // Mark final state as terminal
-        self.states.insert(current_state, true);
-        self.num_keys += 1;
+        // Mark final state as terminal; a key that is already present is not counted again
+        let was_terminal = self.states.insert(current_state, true).unwrap_or(false);
+        if !was_terminal {
+            self.num_keys += 1;
+        }
         Ok(())
     }
 
